@@ -198,7 +198,7 @@ SwallowCounts(sc, s, f) ==
 \* Part 3: the transition system
 
 VARIABLES
-  stream, cuts, fault,   \* parameters of the behaviour (never change): bytes, chunk boundaries, fault
+  stream, fault,         \* parameters of the behaviour (never change): the bytes and the fault
   scan,                  \* = ScanAll(Readable(stream, fault)), kept for the invariants only
   delivered,             \* bytes handed out by the reader so far
   inRead,                \* the implementation is blocked in a Read call
@@ -209,11 +209,10 @@ VARIABLES
   emitted,               \* their spans, in order
   outcome                \* "run" | "ok" | "json"
 
-params == <<stream, cuts, fault, scan>>
+params == <<stream, fault, scan>>
 svars  == <<delivered, inRead, rstat, consumed, pending, processed, emitted, outcome>>
-vars   == <<stream, cuts, fault, scan, delivered, inRead, rstat, consumed, pending, processed, emitted, outcome>>
+vars   == <<stream, fault, scan, delivered, inRead, rstat, consumed, pending, processed, emitted, outcome>>
 
-FreeCuts == {-1}               \* cuts = FreeCuts: every chunk size is possible
 Limit == LimitOf(stream, fault)
 
 StartState ==
@@ -236,13 +235,10 @@ ReadCall ==
   /\ inRead' = TRUE
   /\ UNCHANGED <<delivered, rstat, consumed, pending, processed, emitted, outcome>>
 
-NextCut == IF cuts = FreeCuts THEN 0
-           ELSE SetMin({p \in cuts \cup {Limit} : p > delivered})
-
-\* the reader hands out the next k bytes
+\* the reader hands out the next k bytes; k is not determined by anything the
+\* implementation can see: every partition of the stream into chunks is a behaviour
 ReadReturn(k) ==
   /\ inRead /\ k >= 1 /\ delivered + k <= Limit
-  /\ cuts = FreeCuts \/ delivered + k = NextCut
   /\ delivered' = delivered + k
   /\ inRead' = FALSE
   /\ UNCHANGED <<rstat, consumed, pending, processed, emitted, outcome>>
@@ -333,7 +329,8 @@ NoSpeculation ==
   /\ \A k \in 1..processed : emitted[k] = [s |-> scan.vals[k].s, e |-> scan.vals[k].e]
   /\ pending # <<>> => pending[1] = [s |-> scan.vals[processed + 1].s, e |-> scan.vals[processed + 1].e]
 
-\* the result is a function of stream and fault: Expected does not mention cuts
+\* the result is a function of stream and fault: Expected knows nothing of the
+\* chunk sizes k chosen by ReadReturn
 ChunkIndependent ==
   outcome # "run" =>
     LET x == Expected(scan, stream, fault) IN
